@@ -53,6 +53,7 @@ theorem c16_recv_path_skeleton : Gen.recvPathSkeleton =
   "decryptPipe(ciphertext chan []byte) | go func | for | case text, ok := <-ciphertext | if ok | if result, err = aesgcm.Open(nil, c.dhNonce, text, nil); err != nil | continue",
   "decryptPipe(ciphertext chan []byte) | go func | for | case text, ok := <-ciphertext | if ok | case out <- result | (empty)",
   "decryptPipe(ciphertext chan []byte) | go func | for | case text, ok := <-ciphertext | if ok | case <-c.ctx.Done() | (empty)",
+  "decryptPipe(ciphertext chan []byte) | go func | for | case text, ok := <-ciphertext | else(ok) | ciphertext = nil",
   "decryptPipe(ciphertext chan []byte) | return out",
   "decodePipe(bytesC chan []byte) | replyMsg = make(chan P2PMessage)",
   "decodePipe(bytesC chan []byte) | receivedMsg = make(chan P2PMessage)",
